@@ -735,6 +735,7 @@ class ParallelProcess(Process):
             args=(child, process, self.profile))
         self.multiprocess.start()
         self._ended = False
+        self._result_at_end: Any = {}
         self._pending_command: Optional[
             Tuple[str, Optional[tuple], Optional[dict]]] = None
 
@@ -763,6 +764,11 @@ class ParallelProcess(Process):
         Returns:
             The command result.
         """
+        if self._ended:
+            # The worker was stopped (e.g. its subtree was deleted)
+            # while a command was pending; end() collected the result.
+            result, self._result_at_end = self._result_at_end, {}
+            return result
         if not self._pending_command:
             raise RuntimeError(
                 'Trying to retrieve command result, but no command is '
@@ -845,8 +851,9 @@ class ParallelProcess(Process):
         try:
             if self._pending_command:
                 # collect the result of a command that is still running
-                # so that the child is free to receive the end command
-                self.get_command_result()
+                # so that the child is free to receive the end command;
+                # keep it for whoever started that command
+                self._result_at_end = self.get_command_result()
             self.send_command('end')
             if self.profile:
                 stats = pstats.Stats()
